@@ -156,14 +156,19 @@ impl Scenario for ToVecSc {
             labels.push(format!("exe {}", e.payload));
           }
         }
+        // (the executor touches `buffer` only when the harness reads the returned value)
         "acq_r" | "acq_w" => {
           if let Some(n) = name(&e.site) {
-            labels.push(format!("{} acq_{}", who, n));
+            if !(who == "exe" && n == "buffer") {
+              labels.push(format!("{} acq_{}", who, n));
+            }
           }
         }
         "rel" => {
           if let Some(n) = name(&e.site) {
-            labels.push(format!("{} rel_{}", who, n));
+            if !(who == "exe" && n == "buffer") {
+              labels.push(format!("{} rel_{}", who, n));
+            }
           }
         }
         _ => {}
